@@ -38,8 +38,11 @@ def main(argv=None):
         res = Result(pid, tier, getattr(mod, "LEVEL", "other"))
         res.write_evidence = not a.no_evidence
         mod.run(res, tier)
-        if tier == "thorough" and hasattr(mod, "selftest") and not a.no_evidence:
-            mod.selftest(res)
+        if tier == "thorough" and not a.no_evidence:
+            if hasattr(mod, "selftest"):
+                mod.selftest(res)
+            from . import selftest as _st
+            _st.run(pid, res)
         code = res.finish()
         if a.replay:
             with open(a.replay) as f:
